@@ -30,5 +30,19 @@ let handle = function
         st := s';
         (match r with RTrue -> "T" | RFalse -> "F" | RExc -> "E") ^ " " ^ (let d = dump () in if d = "" then "_" else d))
         (String.split_on_char ';' ops))
+  | ["pkwrite"; wp; items] ->
+      (* items: name:sha:peeled ("-" = none), hex, ';' separated ("_" = none) -> the packed-refs file, hex *)
+      let item x = match String.split_on_char ':' x with
+        | [n; s; p] -> { p_name = bytes_of_hex n; p_sha = bytes_of_hex s; p_peeled = (if p = "-" then None else Some (bytes_of_hex p)) }
+        | _ -> failwith "item" in
+      let l = if items = "_" then [] else List.map item (String.split_on_char ';' items) in
+      let out = write_packed (wp = "1") l in
+      if out = [] then "_" else hex_of_bytes out
+  | ["pkread"; content] ->
+      (match read_packed (if content = "_" then [] else bytes_of_hex content) with
+       | None -> "none"
+       | Some l -> if l = [] then "_" else
+           String.concat ";" (List.map (fun r -> Printf.sprintf "%s:%s:%s" (hex_of_bytes r.p_name) (hex_of_bytes r.p_sha)
+             (match r.p_peeled with None -> "-" | Some q -> hex_of_bytes q)) l))
   | _ -> "EXN bad request"
 let () = serve handle
